@@ -8,6 +8,9 @@ require (
 	pgregory.net/rapid v1.3.0
 )
 
-require github.com/HdrHistogram/hdrhistogram-go v1.1.2 // indirect
+require (
+	github.com/HdrHistogram/hdrhistogram-go v1.1.2 // indirect
+	github.com/segmentio/fasthash v1.0.3 // indirect
+)
 
 replace github.com/vulcand/oxy/v2 => /repo
